@@ -9,7 +9,10 @@ SPEC = {
                   "equal or larger sizes (and for the empty datagram) exactly one piece, the datagram itself; for every ancillary buffer the cmsg walk "
                   "terminates and every byte it reads has an index below the buffer length (the model reads through a checked accessor that records "
                   "an out-of-bounds flag, proved never set). The model is tied to udp.deliverSegments / udp.parseRecvCmsg by correspondence on all "
-                  "payload lengths 0..300 x 16 size classes and on well-formed, truncated, lying-length and random cmsg buffers.",
+                  "payload lengths 0..300 x 16 size classes and on well-formed, truncated, lying-length and random cmsg buffers. "
+                  "At system level the real StdConn (udp.NewListener, batch 64, offloads on) runs ListenOut on a loopback socket: UDP_SEGMENT superdatagrams interleaved with plain "
+                  "datagrams shorter/equal/longer than earlier segment sizes, landing in the same recvmmsg slot; every datagram sent must be delivered whole, exactly once, in order "
+                  "(component listenout; skipped, and recorded as skipped, when the kernel lacks UDP_GRO/UDP_SEGMENT or loopback does not coalesce).",
     "level_note": "Trusted: Coq kernel; the hand-written model (mirrors each comparison of the Go code; int is 64-bit, cmsghdr layout from generated constants, "
                   "pinned to the Linux 64-bit layout in the proof); the harness/overlay shim; the correspondence is differential testing. "
                   "A nil Control pointer with a non-zero Controllen is outside the model (recvmmsg never produces it). Memory safety of the unsafe.Pointer cast itself "
@@ -18,8 +21,10 @@ SPEC = {
     "build_comp": "udpsplit",
     "props": ["props/C27.v"],
     "corr": ["corr/UdpSplit_corr.v"],
-    "comps": [{"comp": "udpsplit", "n_quick": 1200, "n_thorough": 40000}],
-    "trusted": ["model/UdpSplit.v deliver_segments/parse_recv_cmsg are hand-written mirrors of deliverSegments/parseRecvCmsg (tied by correspondence)",
+    "comps": [{"comp": "udpsplit", "n_quick": 1200, "n_thorough": 40000},
+              {"comp": "listenout", "n_quick": 15, "n_thorough": 150}],
+    "trusted": ["listenout: the kernel cuts a UDP_SEGMENT send every gso_size bytes and loopback keeps the order of one flow (the expected wire datagrams are computed that way)",
+                "model/UdpSplit.v deliver_segments/parse_recv_cmsg are hand-written mirrors of deliverSegments/parseRecvCmsg (tied by correspondence)",
                 "gen/Consts_UdpSplit.v: sizeof(cmsghdr), alignment, field offsets/widths, SOL_UDP, UDP_GRO, byte order, int width printed from the compiled code"],
     "assumptions": ["the control buffer handed to parseRecvCmsg is hdr.Control[:hdr.Controllen] and the kernel never reports a Controllen above the space it was given",
                     "Go slice lengths are below 2^62, so off+segSize does not overflow int"],
